@@ -101,6 +101,15 @@ def register_forward_ref(
     return annotation
 
 
+def same_kind(value, t) -> bool:
+    # the value is an instance of the (origin) type of the condition as it is
+    origin = getattr(t, "__origin__", None) if isinstance(t, LogicalType) else t
+    try:
+        return isinstance(origin, type) and not isinstance(origin, LogicalType) and isinstance(value, origin)
+    except TypeError:
+        return False
+
+
 def trial_values(value):
     """
     the conditions of a combined type are tried one after the other, several times over:
@@ -472,8 +481,9 @@ class LogicalType(type):  # noqa
                             context.clear_tmp_error()
                             return val
 
-            # 5. with the policies
-            for con in cls.args:
+            # 5. with the policies: a condition of the value's own kind comes before one that has to make the value
+            # fit first (a sequence takes anything, by wrapping it, and then leaves out what it cannot convert)
+            for con in sorted(cls.args, key=lambda c: not same_kind(value, c)):
                 with context.enter(cls.combinator) as new_context:
                     try:
                         # error isolation
@@ -504,7 +514,11 @@ class LogicalType(type):  # noqa
             given = trial_values(value)
             for pass_options in passes:
                 violated = False
-                for con in cls.args:
+                conditions = cls.args
+                if pass_options is None and any(same_kind(value, c) for c in conditions):
+                    # under the policies only the conditions of the value's own kind are in question (see '|')
+                    conditions = [c for c in conditions if same_kind(value, c)]
+                for con in conditions:
                     with context.enter(cls.combinator, options=pass_options) as new_context:
                         try:
                             # (every condition is tested on the value as it was given)
